@@ -38,10 +38,16 @@ def run(ctx):
           # extra trials that must never be reported
           inf_t = vz.Trial(parameters={'x': 0.5})
           inf_t.complete(vz.Measurement(), infeasibility_reason='infeasible')
+          # an infeasible trial that nevertheless carries (excellent) metric values
+          inf2 = vz.Trial(parameters={'x': 0.75})
+          inf2.complete(vz.Measurement({('m%d' % k): (99.0 if g == 'MAXIMIZE' else -99.0) for k, g in enumerate(goals)}), infeasibility_reason='infeasible')
           act = vz.Trial(parameters={'x': 0.25})
           order = list(range(len(trials)))
           rng.shuffle(order)
-          sup.AddTrials([trials[i] for i in order] + [inf_t, act])
+          extra = [inf_t, inf2, act]
+          rng.shuffle(extra)
+          k0 = rng.randint(0, len(order))
+          sup.AddTrials([trials[i] for i in order[:k0]] + extra + [trials[i] for i in order[k0:]])
           stats['studies'] += 1
           exp_ids = sorted(trials[i].id for i in range(len(trials)) if rec['front'][i])
           got = sorted(t.id for t in sup.GetBestTrials())
@@ -65,6 +71,46 @@ def run(ctx):
             if gv != vals[:k]:
               ctx.violation({'via': 'GetBestTrials', 'objectives': D, 'count': 'k', 'what': 'not-top-k'},
                             {'kind': 'best', 'points': rec['ps'], 'goals': goals, 'k': k, 'observed_ids': gotk})
+      # ---- the query repeated while the study evolves: some trials are still pending at the first query and complete
+      # (in place, as the runner does) before the second one; the answer must follow the current state
+      for rec in rng.sample(recs, min(len(recs), 40 if not ctx.thorough else 200)):
+        n = len(rec['ps'])
+        if n < 2:
+          continue
+        problem = vz.ProblemStatement()
+        problem.search_space.root.add_float_param('x', 0.0, 1.0)
+        for k in range(D):
+          problem.metric_information.append(vz.MetricInformation('m%d' % k, goal=vz.ObjectiveMetricGoal.MAXIMIZE))
+        sup = lps.InRamPolicySupporter(problem)
+        pend = set(rng.sample(range(n), rng.randint(1, n - 1)))
+        trials = []
+        for i, p in enumerate(rec['ps']):
+          t = vz.Trial(parameters={'x': rng.random()})
+          if i not in pend:
+            t.complete(vz.Measurement({('m%d' % k): float(v) for k, v in enumerate(p)}))
+          trials.append(t)
+        sup.AddTrials(trials)
+        stats['studies'] += 1
+
+        def front_of(idx):
+          pts = [rec['ps'][i] for i in idx]
+          return sorted(trials[i].id for i in idx
+                        if not any(all(a >= b for a, b in zip(q, rec['ps'][i])) and any(a > b for a, b in zip(q, rec['ps'][i])) for q in pts))
+        done = [i for i in range(n) if i not in pend]
+        got_a = sorted(t.id for t in sup.GetBestTrials())
+        stats['queries'] += 1
+        if got_a != front_of(done):
+          ctx.violation({'via': 'GetBestTrials', 'objectives': D, 'count': 'unset', 'what': 'with-pending-trials'},
+                        {'kind': 'best-evolving', 'points': rec['ps'], 'pending': sorted(pend), 'expected_front_ids': front_of(done), 'observed_ids': got_a})
+        stored = {t.id: t for t in sup.trials}
+        for i in sorted(pend):
+          stored[trials[i].id].complete(vz.Measurement({('m%d' % k): float(v) for k, v in enumerate(rec['ps'][i])}))
+        got_b = sorted(t.id for t in sup.GetBestTrials())
+        stats['queries'] += 1
+        exp_b = sorted(trials[i].id for i in range(n) if rec['front'][i])          # the whole multiset: TLC's front
+        if got_b != exp_b:
+          ctx.violation({'via': 'GetBestTrials', 'objectives': D, 'count': 'unset', 'what': 'after-pending-trials-completed'},
+                        {'kind': 'best-evolving', 'points': rec['ps'], 'pending_then_completed': sorted(pend), 'expected_front_ids': exp_b, 'observed_ids': got_b})
   ctx.coverage['best_trials'] = stats
   ctx.coverage['traces_validated_against_impl'] = ctx.coverage.get('traces_validated_against_impl', 0) + stats['queries']
   ctx.log('  GetBestTrials: %s' % stats)
